@@ -242,8 +242,20 @@ rotate(Array<T, 3> const& dir, Array<T, 3> const& rot)
     else if (sintheta > 0)
     {
         // Avoid catastrophic roundoff error by normalizing x/y components
-        cosphi = rot[X] / std::sqrt(ipow<2>(rot[X]) + ipow<2>(rot[Y]));
-        sinphi = std::sqrt(1 - ipow<2>(cosphi));
+        T const hyp = std::sqrt(ipow<2>(rot[X]) + ipow<2>(rot[Y]));
+        if (hyp > 0)
+        {
+            cosphi = rot[X] / hyp;
+            sinphi = std::sqrt(1 - ipow<2>(cosphi));
+        }
+        else
+        {
+            // Roundoff in the z component only: exactly along the z axis, so
+            // the azimuthal angle is arbitrary
+            sintheta = 0;
+            cosphi = 1;
+            sinphi = 0;
+        }
     }
     else
     {
